@@ -54,7 +54,8 @@ type Run struct {
 	Assumptions  []string
 	start        time.Time
 	evaluations  int64
-	distinct     map[string]struct{}
+	distinct     map[uint64]struct{} // 64-bit hashes of the signatures (bounded memory)
+	distinctFull bool
 	samples      []any
 	maxSamples   int
 	counters     map[string]int64
@@ -77,7 +78,7 @@ func New(id, tier string) *Run {
 		}
 	}
 	r := &Run{ID: id, Tier: tier, Seed: seed, Level: "exploration", start: time.Now(),
-		distinct: map[string]struct{}{}, counters: map[string]int64{}, known: map[string]int{},
+		distinct: map[uint64]struct{}{}, counters: map[string]int64{}, known: map[string]int{},
 		knownWhat: map[string]string{}, extra: map[string]any{}, maxSamples: 6, floors: map[string]int64{}}
 	data, err := os.ReadFile(filepath.Join(VerifDir(), "known_findings.json"))
 	if err == nil {
@@ -108,9 +109,26 @@ func (r *Run) Eval(n int64) {
 }
 
 // Distinct records a non-trivial case signature.
+// Distinct records a signature. Only a 64-bit hash is kept, and at most maxDistinct of them per
+// process: beyond that the reported number is a lower bound (evidence says so).
 func (r *Run) Distinct(sig string) {
+	h := uint64(14695981039346656037)
+	for i := 0; i < len(sig); i++ {
+		h ^= uint64(sig[i])
+		h *= 1099511628211
+	}
+	r.distinctHash(h)
+}
+
+const maxDistinct = 3000000
+
+func (r *Run) distinctHash(h uint64) {
 	r.mu.Lock()
-	r.distinct[sig] = struct{}{}
+	if len(r.distinct) < maxDistinct {
+		r.distinct[h] = struct{}{}
+	} else if _, ok := r.distinct[h]; !ok {
+		r.distinctFull = true
+	}
 	r.mu.Unlock()
 }
 
@@ -277,12 +295,13 @@ func (r *Run) Finish() int {
 	}
 
 	cov := map[string]any{
-		"evaluations":         r.evaluations,
-		"distinct_nontrivial": len(r.distinct),
-		"rule":                r.Rule,
-		"samples":             r.samples,
-		"counters":            r.counters,
-		"inconclusive":        r.inconclusive,
+		"evaluations":             r.evaluations,
+		"distinct_nontrivial":     len(r.distinct),
+		"rule":                    r.Rule,
+		"distinct_is_lower_bound": r.distinctFull,
+		"samples":                 r.samples,
+		"counters":                r.counters,
+		"inconclusive":            r.inconclusive,
 	}
 	if len(r.inconcNotes) > 0 {
 		cov["inconclusive_notes"] = r.inconcNotes
@@ -340,7 +359,8 @@ func oneLine(s string, max int) string {
 // Partial is what a worker process reports back; the parent merges it.
 type Partial struct {
 	Evaluations  int64            `json:"evaluations"`
-	Distinct     []string         `json:"distinct"`
+	Distinct     []uint64         `json:"distinct"`
+	DistinctFull bool             `json:"distinct_full,omitempty"`
 	Samples      []any            `json:"samples"`
 	Counters     map[string]int64 `json:"counters"`
 	Violations   []Violation      `json:"violations"`
@@ -356,6 +376,7 @@ func (r *Run) Export() Partial {
 	for k := range r.distinct {
 		p.Distinct = append(p.Distinct, k)
 	}
+	p.DistinctFull = r.distinctFull
 	for i := int64(0); i < r.inconclusive; i++ {
 		note := "inconclusive"
 		if int(i) < len(r.inconcNotes) {
@@ -369,7 +390,7 @@ func (r *Run) Export() Partial {
 // NewWorker makes a Run that only accumulates (no known-findings filtering; the parent does that).
 func NewWorker(id, tier string, seed int64) *Run {
 	return &Run{ID: id, Tier: tier, Seed: seed, Level: "exploration", start: time.Now(),
-		distinct: map[string]struct{}{}, counters: map[string]int64{}, known: map[string]int{},
+		distinct: map[uint64]struct{}{}, counters: map[string]int64{}, known: map[string]int{},
 		knownWhat: map[string]string{}, extra: map[string]any{}, maxSamples: 3, floors: map[string]int64{}}
 }
 
@@ -377,7 +398,12 @@ func NewWorker(id, tier string, seed int64) *Run {
 func (r *Run) Merge(p Partial) {
 	r.Eval(p.Evaluations)
 	for _, d := range p.Distinct {
-		r.Distinct(d)
+		r.distinctHash(d)
+	}
+	if p.DistinctFull {
+		r.mu.Lock()
+		r.distinctFull = true
+		r.mu.Unlock()
 	}
 	for _, s := range p.Samples {
 		r.Sample(s)
